@@ -540,6 +540,9 @@ class Interp:
             if isinstance(key, int):
                 base[key] = value
                 return
+            if isinstance(key, tuple) and len(key) == 2 and all(isinstance(k, int) and not isinstance(k, bool) for k in key) and isinstance(base[key[0]], list):
+                base[key[0]][key[1]] = value        # numpy-style a[i, j] = v on a list of rows
+                return
             raise Unsupported("list store with symbolic index", node)
         if isinstance(base, dict):
             if is_z3(key) or isinstance(key, (SObj, SOpaque)):
@@ -1193,6 +1196,13 @@ class Interp:
                     raise Unsupported("symbolic slice of a static sequence", node)
                 try:
                     return base[key]
+                except IndexError:
+                    raise SymRaise("IndexError", node=node, bases=("IndexError", "LookupError", "Exception"))
+            if isinstance(base, list) and isinstance(key, tuple) and len(key) == 2 and all(isinstance(k, int) and not isinstance(k, bool) for k in key) \
+                    and isinstance(base[key[0]] if -len(base) <= key[0] < len(base) else None, list):
+                # numpy-style a[i, j] on a list of rows
+                try:
+                    return base[key[0]][key[1]]
                 except IndexError:
                     raise SymRaise("IndexError", node=node, bases=("IndexError", "LookupError", "Exception"))
             raise Unsupported("symbolic index into a static sequence", node)
